@@ -457,17 +457,17 @@ def renderedMd (cd : CallDef) (vars : Vars Char) : List (String × String) :=
   cd.md.map fun (k, t) => (k, String.ofList (render vars t))
 
 theorem specStep_bad (c : Cfg) (scn : String) (cd : CallDef) (vars : Vars Char) (h : callBad cd = true) :
-    specStep c scn cd vars = ({ calls := [], samples := [sampleText (scn ++ ".t" ++ cd.name) 0] }, false, none) := by
+    specStep c scn cd vars = ({ calls := [], samples := [sampleText (scn ++ "." ++ cd.tag) 0] }, false, none) := by
   simp [specStep, h]
 
 theorem specStep_unknown (c : Cfg) (scn : String) (cd : CallDef) (vars : Vars Char) (h : lookupMethod cd.call = none) :
-    specStep c scn cd vars = ({ calls := [], samples := [sampleText (scn ++ ".t" ++ cd.name) 0] }, false, none) := by
+    specStep c scn cd vars = ({ calls := [], samples := [sampleText (scn ++ "." ++ cd.tag) 0] }, false, none) := by
   by_cases hb : callBad cd = true <;> simp [specStep, h, hb]
 
 theorem specStep_illtyped (c : Cfg) (scn : String) (cd : CallDef) (vars : Vars Char) (m : String) (fs : List Field)
     (hb : callBad cd = false)
     (h : lookupMethod cd.call = some (m, fs)) (h2 : decodeFields fs (renderedPayload cd vars) = none) :
-    specStep c scn cd vars = ({ calls := [], samples := [sampleText (scn ++ ".t" ++ cd.name) 400] }, false, none) := by
+    specStep c scn cd vars = ({ calls := [], samples := [sampleText (scn ++ "." ++ cd.tag) 400] }, false, none) := by
   simp only [renderedPayload] at h2
   simp [specStep, h, h2, hb]
 
@@ -476,7 +476,7 @@ theorem specStep_call (c : Cfg) (scn : String) (cd : CallDef) (vars : Vars Char)
     (h : lookupMethod cd.call = some (m, fs)) (h2 : decodeFields fs (renderedPayload cd vars) = some vals) :
     (specStep c scn cd vars).1 =
         { calls := [callText m (canonMsg fs vals) (mdText (renderedMd cd vars)) c.tmo],
-          samples := [sampleText (scn ++ ".t" ++ cd.name) (serverCode m (canonMsg fs vals) (renderedMd cd vars))] } ∧
+          samples := [sampleText (scn ++ "." ++ cd.tag) (serverCode m (canonMsg fs vals) (renderedMd cd vars))] } ∧
       (specStep c scn cd vars).2.1 = !(assertFails cd (serverCode m (canonMsg fs vals) (renderedMd cd vars))) := by
   simp only [renderedPayload] at h2
   simp [specStep, h, h2, renderedMd, hb]
